@@ -83,7 +83,7 @@ Section Oracles.
   Theorem C03_for : forall c ss fs ks, let t := T $"for" ss fs ks in
     let cb := body_ctx c (match child "body" t with Some x => changes_directory x | None => false end) in
     walk c t = combine (need simple astr mredir cdres injrisk rulematch cb (child "body" t) ::
-                        wparts simple astr mredir cdres injrisk rulematch c (children "words" t) ++
+                        wpartsb simple astr mredir cdres injrisk rulematch true c (children "words" t) ++
                         redirs_of simple astr mredir cdres injrisk rulematch c t).
   Proof. exact (walk_for simple astr mredir cdres injrisk rulematch). Qed.
   Theorem C03_case : forall c ss fs ks, let t := T $"case" ss fs ks in
@@ -104,7 +104,7 @@ Section Oracles.
      words (and the injection-risk rule), joined - no early exit *)
   Theorem C03_simple : forall c ss fs ks, let t := T $"command" ss fs ks in
     walk c t = combine (wparts simple astr mredir cdres injrisk rulematch c (children "words" t) ++
-                        cmd_inj injrisk c t ++
+                        cmd_env t ++ cmd_names astr c t ++ cmd_inj injrisk c t ++
                         redirs_of simple astr mredir cdres injrisk rulematch c t ++
                         cmd_proper simple rulematch c t).
   Proof. exact (walk_command simple astr mredir cdres injrisk rulematch). Qed.
